@@ -57,9 +57,10 @@ EXHAUSTIVE_NOTE = ("grid T (quick 10,16; thorough 10..40) x peak position 1..T-1
                    "is enumerated completely, k=5; widths, channel counts, noise and batch composition are sampled; call form "
                    "and memory layout cycle with the peak position over the grid (float64, fs=30000)")
 ASSUMPTIONS = [
-    "the input is a writeable numpy array (float64, float32, or int32 without NaN; any memory layout) without exact ties between candidate extrema (continuous noise); "
+    "the input is a writeable numpy array (float64, float32, or int32 counts without NaN; any memory layout) without "
+    "exact ties between candidate extrema (continuous noise); "
     "a waveform whose reference decision margin is exactly 0, or whose |peak/trough| is within 1e-5 of 1.5, is "
-    "labelled and skipped (measured: never happens in float64)",
+    "labelled and skipped (measured: never happens in float64; rounded int32 counts can tie)",
     "whole channels are NaN-padded (as produced at the probe edges), never all channels of a waveform",
     "recovery offset k < T (the function documents a ValueError otherwise)",
     "scaling is checked for c = 2**e only, so that equality is exact and no index can flip by rounding",
@@ -172,13 +173,17 @@ def _case(draw):
     else:
         k = draw(st.sampled_from([5, 5, 5, 5, 1, 2, 3, 4, 6, 7, 8, 9]))
         fs = draw(st.sampled_from([FS_DEFAULT] * 4 + FS_OTHER))
-    forms = FORMS_ANY + (FORMS_DEFAULT if k == 5 and fs == FS_DEFAULT else ())
+    # options of the repeated call on the same array: the same ones, or another offset / sampling rate
+    other = draw(st.sampled_from(["same", "same", "k", "fs", "both"]))
+    k2 = draw(st.sampled_from([x for x in range(1, 10) if x != k])) if other in ("k", "both") else k
+    fs2 = draw(st.sampled_from([x for x in [FS_DEFAULT] + FS_OTHER if x != fs])) if other in ("fs", "both") else fs
+    forms = FORMS_ANY + (FORMS_DEFAULT if k2 == 5 and fs2 == FS_DEFAULT else ())
     dtype = draw(st.sampled_from(["f64", "f64", "f64", "f64", "f64", "f64", "f32", "f32", "f32", "i32"]))
     return {"T": T, "C": C, "k": k,
             "seed": draw(st.integers(0, 2 ** 32 - 1)), "f32": dtype == "f32",
             "scale_exp": draw(st.sampled_from([-6, -3, -1, 1, 2, 5])), "split": draw(st.integers(0, 30)),
             "laws": True, "wavs": wavs,
-            "dtype": dtype, "fs": fs, "form": form, "form2": draw(st.sampled_from(forms)),
+            "dtype": dtype, "fs": fs, "form": form, "form2": draw(st.sampled_from(forms)), "k2": k2, "fs2": fs2,
             "layout": draw(st.sampled_from(LAYOUTS + ("C",))), "law_layout": draw(st.sampled_from(LAYOUTS + ("C",))),
             "again": draw(st.sampled_from([True, True, True, False])),
             "bperm": draw(st.sampled_from([True, False, False]))}
@@ -212,7 +217,8 @@ def enum_cases(desc):
                     yield {"T": T, "C": 1, "k": 5, "seed": 1000 * T + pos, "f32": False, "scale_exp": 1,
                            "split": pos, "laws": True, "wavs": wavs,
                            "dtype": "f64", "fs": FS_DEFAULT, "form": ENUM_FORMS[j % len(ENUM_FORMS)],
-                           "form2": ENUM_FORMS[(j // 2 + 3) % len(ENUM_FORMS)], "layout": LAYOUTS[j % len(LAYOUTS)],
+                           "form2": ENUM_FORMS[(j // 2 + 3) % len(ENUM_FORMS)], "k2": 5, "fs2": FS_DEFAULT,
+                           "layout": LAYOUTS[j % len(LAYOUTS)],
                            "law_layout": LAYOUTS[(j // 3) % len(LAYOUTS)], "again": True, "bperm": j % 3 == 0}
 
 
@@ -548,7 +554,8 @@ def run_case(case, ctx):
     T, C, k = case["T"], case["C"], case["k"]
     dt = _dtype(case)
     fs = case.get("fs", FS_DEFAULT)
-    form, form2 = _form(case.get("form", "kw"), k, fs), _form(case.get("form2", "kw"), k, fs)
+    k2, fs2 = case.get("k2", k), case.get("fs2", fs)
+    form, form2 = _form(case.get("form", "kw"), k, fs), _form(case.get("form2", "kw"), k2, fs2)
     layout, law_layout = case.get("layout", "C"), case.get("law_layout", "C")
     W = build_batch(case)  # never handed to the code under test: every call gets a fresh _Arg built from it
     n = W.shape[0]
@@ -744,10 +751,29 @@ def run_case(case, ctx):
 
     # ---- the same argument object a second time (other data of the same shape went through the function in between)
     if case.get("again", True):
-        ctx.label("again_" + form2)
-        g3 = _features(ctx, "C14.again", arg, k, fs, form2, src=W)
+        ctx.label("again_" + form2, "again_same_options" if (k2, fs2) == (k, fs) else "again_other_options")
+        g3 = _features(ctx, "C14.again", arg, k2, fs2, form2, src=W)
         if g3 is not ctx.CRASH:
-            bad = _diff_cols(got, g3)
+            dep = set()  # columns that follow the options
+            if k2 != k:
+                dep |= {"recovery_time_idx", "recovery_val", "recovery_slope"}
+            if fs2 != fs:
+                dep |= {"half_peak_duration", "peak_to_trough_duration"} | set(SLOPE_COLS)
+            bad = _diff_cols(got, g3, skip=dep)
             ctx.check(not bad, "C14.again",
-                      lambda: f"second call with the same array object ({form2} after {form}, layout {layout}): columns "
-                              f"{bad} differ from the first call")
+                      lambda: f"second call with the same array object ({form2}, k={k2}, fs={fs2} after {form}, k={k}, fs={fs}; "
+                              f"layout {layout}): columns {bad} differ from the first call")
+            if dep and ctx.check(all(c in g3 and g3[c].shape == (n,) for c in REQUIRED), "C14.frame",
+                                 lambda: f"second call: missing columns or wrong number of rows (expected {n})"):
+                _check_fs_columns(ctx, g3, fs2, n)
+                for i, r in enumerate(refs):
+                    if r["skip"] or k2 == k or not (got["peak_trace_idx"][i] == r["c"] and got["peak_time_idx"][i] == r["p"]):
+                        continue
+                    idx, exp = g3["recovery_time_idx"][i], min(r["tr"] + k2, T - 1)
+                    ctx.check(idx == exp, "C14.recovery",
+                              lambda: f"row {rows[i]}, second call with k={k2}: recovery index {idx} expected {exp} "
+                                      f"(trough {r['tr']} + {k2}, T={T})")
+                    if idx == exp:
+                        ctx.check(g3["recovery_val"][i] == r["x"][exp], "C14.values",
+                                  lambda: f"row {rows[i]}, second call with k={k2}: recovery_val = {g3['recovery_val'][i]} but "
+                                          f"the peak trace holds {r['x'][exp]} at index {exp}")
